@@ -3,6 +3,7 @@ package main
 import (
 	"bytes"
 	"fmt"
+	"sync"
 	"time"
 
 	"go.amzn.com/verifharness/vh"
@@ -35,6 +36,15 @@ func genC10(tier string, seed int64) []Case {
 				exts = 1
 			}
 			add(c10Desc{Phase: ph, Extra: extra, Exts: exts})
+		}
+	}
+	// a caller arriving in the window between the release of a finished invocation (or of a finished reset)
+	// and the moment its Invoke / Reset call returns: refused or served, but never half-served
+	for _, ph := range []string{"finalRelease", "resetFinalRelease"} {
+		for _, exts := range []int{0, 1} {
+			d := c10Desc{Phase: ph, Extra: 1, Exts: exts}
+			id := fmt.Sprintf("C10/%s/x%d/e%d/o%d/h%d", d.Phase, d.Extra, d.Exts, d.Offset, d.History)
+			cases = append(cases, Case{ID: id, Class: d.Phase, Desc: d, Run: func(c *Ctx) { runC10Window(c, d) }})
 		}
 	}
 	// with an extension present in every phase
@@ -332,5 +342,107 @@ func runC10(c *Ctx, d c10Desc) {
 	c.SetInterleaving(d.Phase + fmt.Sprintf("/x%d", d.Extra))
 	if c.WantSample || c.Violated() {
 		c.SetSample(sampleLog(w, 120))
+	}
+}
+
+// runC10Window: the first invocation (or its timeout reset) is complete as far as the platform state is
+// concerned - its reservation has been released - but the goroutine that served it is paused just before
+// its trailing, redundant release. A caller arriving now is either refused or served; being admitted and
+// then having its reservation cancelled by the earlier invocation's clean-up is neither.
+func runC10Window(c *Ctx, d c10Desc) {
+	timeout := int64(5000)
+	hook := "invoke.beforeFinalRelease"
+	if d.Phase == "resetFinalRelease" {
+		timeout, hook = 250, "serverReset.beforeFinalRelease"
+	}
+	exts := []string{}
+	for i := 0; i < d.Exts; i++ {
+		exts = append(exts, fmt.Sprintf("ext%d", i))
+	}
+	w, err := NewWorld(vh.Config{TimeoutMs: timeout, Extensions: exts})
+	if err != nil {
+		c.Inconclusive("harness: " + err.Error())
+		return
+	}
+	defer w.Close()
+	hk := w.Hk
+	respond := func(ev []byte) []byte { return append([]byte("R:"), ev...) }
+	stallFirst := d.Phase == "resetFinalRelease"
+	gotExtra, answerExtra := make(chan struct{}), make(chan struct{})
+	var gotOnce sync.Once
+	w.RtPlan = func(gen int, p *vh.Proc) vh.ExecPlan {
+		return vh.ExecPlan{Behave: w.RtLoop(RtOpts{Handle: func(p *vh.Proc, pt *vh.Party, n int, ev *vh.Resp) *vh.Exit {
+			if stallFirst && gen == 1 {
+				return Stall(p)
+			}
+			if bytes.Equal(ev.Body, []byte("extra-0")) {
+				// the newcomer is in flight: tell the conductor, answer only when told to
+				gotOnce.Do(func() { close(gotExtra) })
+				select {
+				case <-answerExtra:
+				case <-p.Ctx.Done():
+					return nil
+				}
+			}
+			pt.Respond(ev.ReqID(), respond(ev.Body), nil)
+			return nil
+		}})}
+	}
+	w.ExtPlan = func(base string, gen int, p *vh.Proc) vh.ExecPlan {
+		return vh.ExecPlan{Behave: w.ExtLoop(ExtOpts{Events: []string{"INVOKE", "SHUTDOWN"}})}
+	}
+	hk.Hold(hook, 0)
+	w.E.Init()
+	first := w.E.InvokeAsync([]byte("first-payload"), vh.InvokeOpts{})
+	if !hk.WaitHeld(hook, 10*time.Second) {
+		c.Inconclusive("pause point " + hook + " not reached")
+		return
+	}
+	c.Check(!first.Done(), "first_paused", "C10/harness-window", "the first invocation returned although its goroutine is paused", nil)
+	x := w.E.InvokeAsync([]byte("extra-0"), vh.InvokeOpts{})
+	// let the newcomer get as far as it gets: refused at once, or dispatched to the runtime (then it is in
+	// flight when the paused goroutine resumes; it is answered only afterwards)
+	refusedEarly := false
+	select {
+	case <-gotExtra:
+	case <-time.After(3 * time.Second):
+		refusedEarly = x.Done()
+	}
+	hk.Release(hook)
+	time.Sleep(5 * time.Millisecond)
+	close(answerExtra)
+	if !first.Wait(8 * time.Second) {
+		c.Check(false, "first_unaffected", "C10/first-hangs/"+d.Phase, "the paused invocation never returned after the pause", nil)
+		return
+	}
+	wantFirst := "ok"
+	if stallFirst {
+		wantFirst = "timeout"
+	}
+	c.Check(vh.ErrName(first.Err) == wantFirst, "first_unaffected", "C10/first-outcome/"+d.Phase+"/"+vh.ErrName(first.Err), fmt.Sprintf("first invocation ended %q, expected %q", vh.ErrName(first.Err), wantFirst), nil)
+	if !x.Wait(10 * time.Second) {
+		c.Check(false, "window_caller_refused_or_served", "C10/window/"+d.Phase+"/hangs", "a caller arriving between the release and the return of the previous invocation was never answered", nil)
+		c.SetSample(sampleLog(w, 160))
+		return
+	}
+	out := vh.ErrName(x.Err)
+	served := x.Err == nil && bytes.Equal(x.W.Body(), respond([]byte("extra-0")))
+	refused := out == "alreadyreserved" && x.W.NWrites() == 0
+	c.Check(served || refused, "window_caller_refused_or_served", "C10/window/"+d.Phase+"/"+out, fmt.Sprintf("a caller arriving between the release and the return of the previous invocation was neither refused nor served: outcome %q, body %s", out, trunc(x.W.Body())), nil)
+	if served {
+		c.Counter("window_caller_served", 1)
+	} else if refused {
+		c.Counter("window_caller_refused", 1)
+	}
+	_ = refusedEarly
+	// and later invocations are unaffected
+	nxt := w.E.InvokeAsync([]byte("next-one"), vh.InvokeOpts{})
+	ok := nxt.Wait(8*time.Second) && nxt.Err == nil && bytes.Equal(nxt.W.Body(), respond([]byte("next-one")))
+	c.Check(ok, "next_ok", "C10/next-fails/"+d.Phase, "the next sequential invocation failed", vh.ErrName(nxt.Err))
+	c.SetHooks(hk.Arrived())
+	c.SetTrace(d.Phase+fmt.Sprint(d.Exts)+out, true)
+	c.SetInterleaving(d.Phase + "/" + out)
+	if c.WantSample || c.Violated() {
+		c.SetSample(sampleLog(w, 160))
 	}
 }
